@@ -111,6 +111,10 @@ Definition legal (f : fmt) (v : optval) : bool :=
   | _, _ => false
   end.
 
+(* a value that is legal for SOME option class (an application may put any option object under any number) *)
+Definition legal_any (v : optval) : bool :=
+  existsb (fun f => legal f v) [OpaqueOption; StringOption; UintOption; BlockOption; ContentFormatOption].
+
 (* ------------------------------------------------------------------ the encoder of the specification *)
 (* options must appear in order of their numbers; [sorted_options] is the well-formedness of an option list
    (numbers non-decreasing from prev, every delta and every value length expressible up to [maxv],
@@ -121,6 +125,13 @@ Fixpoint options_ok (maxv : Z) (prev : Z) (l : list option_) : bool :=
   | (n, v) :: r =>
     (0 <=? n - prev) && (n - prev <=? maxv) && legal (class_of (rfc_format_of n)) v
     && (blen (rfc_value v) <=? maxv) && options_ok maxv n r
+  end.
+(* the same with "legal for some class" instead of "legal for the class registered for the number" *)
+Fixpoint options_ok_any (maxv : Z) (prev : Z) (l : list option_) : bool :=
+  match l with
+  | [] => true
+  | (n, v) :: r =>
+    (0 <=? n - prev) && (n - prev <=? maxv) && legal_any v && (blen (rfc_value v) <=? maxv) && options_ok_any maxv n r
   end.
 Definition rfc_encode (m : msg) : bytes :=
   rfc_message (m_type m) (m_code m) (m_mid m) (m_token m)
@@ -157,3 +168,49 @@ Inductive WellFormed : bytes -> rmsg -> Prop :=
     blen tok = tkl -> OptionsWF 0 rest opts p ->
     WellFormed ((64 + t * 16 + tkl) :: c :: m1 :: m0 :: tok ++ rest)
                {| r_type := t; r_code := c; r_mid := m1 * 256 + m0; r_token := tok; r_options := opts; r_payload := p |}.
+
+(* ------------------------------------------------------------------ the same reading as an executable parser *)
+(* (proved equivalent to WellFormed in Proofs/C01Parse.v; compared with the oracle's Python parser on the decode streams) *)
+Definition parse_ext (nib : Z) (bs : bytes) : option (Z * bytes) :=
+  if (0 <=? nib) && (nib <=? 12) then Some (nib, bs)
+  else if nib =? 13 then match bs with b :: r => Some (b + 13, r) | _ => None end
+  else if nib =? 14 then match bs with b1 :: b0 :: r => Some (b1 * 256 + b0 + 269, r) | _ => None end
+  else None.
+Fixpoint rfc_parse_options (fuel : nat) (prev : Z) (bs : bytes) : option (list (Z * bytes) * bytes) :=
+  match fuel with
+  | O => None
+  | S k =>
+    match bs with
+    | [] => Some ([], [])
+    | h :: r =>
+      if h =? 255 then match r with [] => None | _ => Some ([], r) end
+      else
+        match parse_ext (h / 16) r with
+        | None => None
+        | Some (d, r1) =>
+          match parse_ext (h mod 16) r1 with
+          | None => None
+          | Some (l, r2) =>
+            if blen r2 <? l then None
+            else match rfc_parse_options k (prev + d) (skipn (Z.to_nat l) r2) with
+                 | None => None
+                 | Some (opts, p) => Some ((prev + d, firstn (Z.to_nat l) r2) :: opts, p)
+                 end
+          end
+        end
+    end
+  end.
+Definition rfc_parse (bs : bytes) : option rmsg :=
+  match bs with
+  | b0 :: c :: m1 :: m0 :: r =>
+    let tkl := b0 mod 16 in
+    if (b0 / 64 =? 1) && (tkl <=? 8) && (tkl <=? blen r) then
+      match rfc_parse_options (S (length r)) 0 (skipn (Z.to_nat tkl) r) with
+      | Some (opts, p) =>
+        Some {| r_type := (b0 / 16) mod 4; r_code := c; r_mid := m1 * 256 + m0; r_token := firstn (Z.to_nat tkl) r;
+                r_options := opts; r_payload := p |}
+      | None => None
+      end
+    else None
+  | _ => None
+  end.
